@@ -17,7 +17,7 @@ pub const RECORDED: &[&str] = &[
     "xlsx:unparsable-formula-reinterpreted", "xlsx:orphan-spill-cell-becomes-value", "xlsx:export-panic-dangling-name-scope",
     "xlsx:export-panic-unevaluated", "xlsx:sheet-name-whitespace-normalised", "xlsx:cf-dxf-false-flag-dropped", "xlsx:cf-text-equals-becomes-formula",
     "xlsx:cf-timeperiod-between-becomes-formula", "xlsx:cf-iconset-icons-and-colors-not-kept", "xlsx:cf-iconrating-color-not-kept",
-    "xlsx:border-diagonal-flags-lost", "xlsx:border-style-dotted-becomes-thin", "xlsx:array-range-off-grid-cell-dropped", "xlsx:array-range-off-grid-import-error", "xlsx:formula-text-not-decoded", "escape-lookalike-then-control",
+    "xlsx:array-range-off-grid-cell-dropped", "xlsx:array-range-off-grid-import-error", "xlsx:formula-text-not-decoded", "escape-lookalike-then-control",
 ];
 
 fn rc_of(key: &str) -> (i32, i32) {
